@@ -164,7 +164,7 @@ class CountingBloomFilter(BloomFilter):
             hashes (list): A list of integers representing the key to check
         Returns:
             int: Maximum number of insertions"""
-        return min(self._bloom[x % self.number_bits] for x in hashes)
+        return min(self._bloom[hashes[i] % self.number_bits] for i in range(self._number_hashes))
 
     def remove(self, key: KeyT, num_els: int = 1) -> int:
         """Remove the element from the counting bloom
